@@ -10,6 +10,9 @@ import (
 // Legal says whether a shim that follows the protocol could send op in the current state of the shim model.
 // Generators only produce legal ops; the trace minimiser uses it to keep reduced traces legal.
 func (w *World) Legal(op Op) bool {
+	if w.ExcludedShape(op) != "" {
+		return false
+	}
 	s := w.Shim
 	liveNode := func(id string) bool { n := s.Nodes[id]; return n != nil && n.State == "accepted" }
 	accepted := func(id string) bool { a := s.Apps[id]; return a != nil && a.State == "accepted" }
